@@ -391,9 +391,10 @@ def e2e_worker(chunk):
     from .. import gen, sim as SM_
     names = {'sha1': ('hmac(sha1)', 160), 'sha256': ('hmac(sha256)', 256), 'sha512': ('hmac(sha512)', 512)}
     st_ = Stats()
-    for (integ, encr, proto, mode, lt, v6) in chunk:
+    for (integ, encr, proto, mode, lt, v6, pa, pb) in chunk:
         cfg = gen.simple_cfg(dh='19', mode=mode, proto=proto, v6=v6)
         e = cfg['protect'][0]
+        e['port_a'], e['port_b'] = pa, pb
         e['integ_a'] = e['integ_b'] = [integ]
         e['encr_a'] = e['encr_b'] = [encr]
         e['lifetime_a'] = e['lifetime_b'] = lt
@@ -424,14 +425,22 @@ def e2e_worker(chunk):
                 elif not (lt <= r['soft_add'] <= lt + 5) or r['hard_add'] != r['soft_add'] + 10:
                     fails.append(Failure('child-sa:lifetime', f'an entry with lifetime {lt} s was installed with soft/hard '
                                                               f'{r["soft_add"]}/{r["hard_add"]} s (jitter 0..5, hard = soft + 10)'))
+                out = r['saddr'] == cfg['addr_' + name]
+                want_p = (pa, pb) if (name == 'a') == out else (pb, pa)
+                sel = r['sel']
+                got_p = (sel['sport'], sel['dport'])
+                got_m = (sel['sport_mask'], sel['dport_mask'])
+                if got_p != want_p or got_m != tuple(0xFFFF if x else 0 for x in want_p):
+                    fails.append(Failure('child-sa:ports', f'entry with ports {pa}/{pb}: the {"outbound" if out else "inbound"} SA of {name} '
+                                                           f'carries selector ports {got_p} masks {got_m}, meant {want_p}'))
                 if r['mode'] != (0 if mode == 'transport' else 1):
                     fails.append(Failure('child-sa:mode', f'a {mode} entry was installed with mode {r["mode"]}'))
         if n < 4:
             fails.append(Failure('child-sa:not-negotiated', f'only {n} NEWSA requests in a handshake + rekey of a compatible configuration'))
-        st_.case(common.jhash([integ, encr, proto, mode, lt, v6]), nontrivial=True, klass=['e2e-child-sa', f'e2e:integ={integ}', f'e2e:lifetime={lt}'],
-                 sample={'integ': integ, 'encr': encr, 'proto': proto, 'mode': mode, 'lifetime': lt})
+        st_.case(common.jhash([integ, encr, proto, mode, lt, v6, pa, pb]), nontrivial=True, klass=['e2e-child-sa', f'e2e:integ={integ}', f'e2e:lifetime={lt}', f'e2e:ports={pa}/{pb}'],
+                 sample={'integ': integ, 'encr': encr, 'proto': proto, 'mode': mode, 'lifetime': lt, 'ports': [pa, pb]})
         for f in fails:
-            f.case = {'e2e': [integ, encr, proto, mode, lt, v6]}
+            f.case = {'e2e': [integ, encr, proto, mode, lt, v6, pa, pb]}
             if common.KNOWN.is_open('C14', f.sig):
                 st_.excluded[f.sig] += 1
             elif not any(g.sig == f.sig for g in st_.failures):
@@ -440,15 +449,18 @@ def e2e_worker(chunk):
 
 
 def e2e_grid():
-    return [(i, e, p, m, lt, v6) for i in ('sha1', 'sha256', 'sha512') for e in ('aes128', 'aes256') for p in ('esp', 'ah')
-            for m in ('transport', 'tunnel') for lt in (-1, 1, 300, 86400) for v6 in (False, True)]
+    # selector ports of the entry rotate through the boundary values (0 = any; 1 and 65535 are single ports, not 'any')
+    pp = [(0, 23), (65535, 0), (0, 65535), (65535, 65535), (1, 65534), (500, 0), (0, 0), (65535, 1)]
+    g = [(i, e, p, m, lt, v6) for i in ('sha1', 'sha256', 'sha512') for e in ('aes128', 'aes256') for p in ('esp', 'ah')
+         for m in ('transport', 'tunnel') for lt in (-1, 1, 300, 86400) for v6 in (False, True)]
+    return [c + pp[(k + k // 8) % len(pp)] for k, c in enumerate(g)]
 
 
 def run(ctx):
     g = e2e_grid()
     for st_ in pmap(e2e_worker, [g[i::common.NCPU] for i in range(common.NCPU)]):
         ctx.stats.merge(st_)
-    ctx.extra['e2e_child_sa'] = f'{len(g)} negotiated configurations (integrity x cipher x ESP/AH x mode x lifetime incl. -1 x family), handshake + rekey'
+    ctx.extra['e2e_child_sa'] = f'{len(g)} negotiated configurations (integrity x cipher x ESP/AH x mode x lifetime incl. -1 x family, selector ports rotating through 0/1/65534/65535 combinations), handshake + rekey; algorithms, lifetimes, mode and selector ports + masks of every NEWSA'
     q = ctx.quick
     tasks = [('calls', (300 if q else 12000, ctx.seed * 64 + i)) for i in range(10)]
     tasks += [('events', (400 if q else 12000, ctx.seed * 64 + 20 + i)) for i in range(6)]
